@@ -22,9 +22,11 @@ def _no_col(e):
 
 
 def _scalar_shapes(case):
-    """Shapes that make Polars 1.44 produce a length-1 series (engine bugs, DESIGN §4.15):
-    a when/then chain whose values or whose conditions are all literal, and constant columns
-    (defined by a literal-only expression) that the optimizer folds back into a scalar."""
+    """Shapes that make Polars 1.44 produce a length-1 series where a column is expected
+    (engine bugs, DESIGN §4.15): literal-only subexpressions that the engine keeps as scalars -
+    a when/then chain with a literal-only value or literal-only conditions, a function call
+    whose arguments are all literals, `x.is_in()` without values, and constant columns
+    (defined by a literal-only expression), which the optimizer folds back into a scalar."""
     from .ir import step_exprs, walk_expr
 
     for s in case["steps"]:
@@ -35,12 +37,12 @@ def _scalar_shapes(case):
             for nd in walk_expr(e):
                 if nd[0] == "case":
                     vals = [v for _, v in nd[1]] + ([nd[2]] if nd[2] is not None else [])
-                    if all(_no_col(v) for v in vals) or all(_no_col(c) for c, _ in nd[1]):
+                    if any(_no_col(v) for v in vals) or all(_no_col(c) for c, _ in nd[1]):
                         return True
                 if nd[0] == "map":
-                    vals = [v for _, v in nd[2]] + ([nd[3]] if nd[3] is not None else [])
-                    if all(_no_col(v) for v in vals) or _no_col(nd[1]):
-                        return True
+                    return True
+                if nd[0] == "fn" and nd[2] and all(_no_col(a) for a in nd[2]):
+                    return True
                 if nd[0] == "fn" and nd[1] == "is_in" and len(nd[2]) == 1:
                     return True
     return False
@@ -50,7 +52,8 @@ def engine_quirk(ex, case):
     """Failures that are bugs of the execution engine, not of the library (DESIGN §4.15)."""
     msg = str(ex)
     if exc_name(ex) in ("InvalidOperationError", "ShapeError") and (
-            "doesn't match the DataFrame height" in msg or "must have same length as DataFrame" in msg):
+            "doesn't match the DataFrame height" in msg or "must have same length as DataFrame" in msg
+            or "output length of `map`" in msg):
         if _scalar_shapes(case):
             return "polars_scalar_broadcast"
     if exc_name(ex) == "InvalidOperationError" and "joining with repeated key names" in msg:
